@@ -30,6 +30,8 @@ func main() {
 		cmdDump(os.Args[2:])
 	case "check":
 		os.Exit(cmdCheck(os.Args[2:]))
+	case "sweep":
+		os.Exit(cmdSweep(os.Args[2:]))
 	case "parse":
 		for _, f := range os.Args[2:] {
 			cf, err := ParseContractFile(f)
@@ -431,4 +433,92 @@ func isIfaceKey(pi *PkgInfo, key string) bool {
 	}
 	_, ok := obj.Type().Underlying().(*types.Interface)
 	return ok
+}
+
+// cmdSweep runs the VC generator with an empty contract (no-panic obligations only,
+// modifies *) over every function of the selected packages: engine shake-out and
+// zero-annotation safety sweep.  govc sweep [-solve] <pkg-substring>...
+func cmdSweep(args []string) int {
+	fs := flag.NewFlagSet("sweep", flag.ExitOnError)
+	solve := fs.Bool("solve", false, "also run the solvers")
+	fs.Parse(args)
+	w, err := loadWorld(defaultPatterns, nil)
+	if err != nil {
+		fmt.Println(err)
+		return 2
+	}
+	w.loadContracts([]string{"/verif/contracts"})
+	var paths []string
+	for p := range w.pkgs {
+		for _, sub := range fs.Args() {
+			if strings.Contains(p, sub) {
+				paths = append(paths, p)
+				break
+			}
+		}
+	}
+	sort.Strings(paths)
+	nf, npanic, nobl := 0, 0, 0
+	unsup := map[string]int{}
+	var units []*UnitResult
+	for _, p := range paths {
+		pi := w.pkgs[p]
+		var fl []*ssa.Function
+		for f := range w.functionsOf(pi) {
+			fl = append(fl, f)
+		}
+		sort.Slice(fl, func(i, j int) bool { return funcKey(fl[i]) < funcKey(fl[j]) })
+		for _, f := range fl {
+			if f.Blocks == nil || strings.HasSuffix(w.fset.Position(f.Pos()).Filename, "_test.go") || strings.Contains(w.fset.Position(f.Pos()).Filename, "zz_generated") {
+				continue
+			}
+			c := &Contract{Func: funcKey(f), Loops: map[int]*LoopSpec{}, NoPanic: true, ModAll: true, File: "sweep"}
+			r := w.verifyFunction(pi, f, c)
+			nf++
+			nobl += len(r.Obls)
+			for _, e := range r.SpecErrs {
+				if strings.HasPrefix(e, "engine panic") {
+					npanic++
+					fmt.Printf("ENGINE PANIC in %s: %s\n", r.Name, truncate(e, 1500))
+				}
+			}
+			for _, m := range r.Unsupported {
+				k := m
+				if i := strings.Index(k, " of "); i > 0 && strings.HasPrefix(k, "loop ") {
+					k = "loop without invariant"
+				}
+				unsup[k]++
+			}
+			units = append(units, r)
+		}
+	}
+	fmt.Printf("sweep: %d functions, %d obligations, %d engine panics\n", nf, nobl, npanic)
+	var ks []string
+	for k := range unsup {
+		ks = append(ks, k)
+	}
+	sort.Slice(ks, func(i, j int) bool { return unsup[ks[i]] > unsup[ks[j]] })
+	for i, k := range ks {
+		if i > 40 {
+			break
+		}
+		fmt.Printf("  %5d  %s\n", unsup[k], truncate(k, 150))
+	}
+	if *solve {
+		wd := filepath.Join(os.TempDir(), fmt.Sprintf("govc-sweep-%d", os.Getpid()))
+		os.MkdirAll(wd, 0o755)
+		defer os.RemoveAll(wd)
+		solveAll(units, solveConfig{workdir: wd, timeoutS: 5, jobs: 16})
+		bad := 0
+		for _, u := range units {
+			for _, o := range u.Obls {
+				if !o.Cover && o.Status != "discharged" {
+					bad++
+					fmt.Printf("  open: %s [%s] %s (%s)\n", o.Name, o.Status, o.Desc, o.Pos)
+				}
+			}
+		}
+		fmt.Printf("sweep: %d obligations not discharged without annotations\n", bad)
+	}
+	return 0
 }
